@@ -505,6 +505,58 @@ func runScalars(raw json.RawMessage, seed int64, rec *Rec) {
 			time.Sleep(time.Millisecond)
 		}
 		rec.Add(E("result", "ok", err == nil, "code", codeOf(err), "closed", closed.Load(), "stuck", stuck))
+	case "recvfail_live":
+		// a bidi call whose handler answers the first message and then waits for the client; the client cannot take the
+		// answer (it is above its read limit): Receive reports that and RETURNS, although the call is still alive --
+		// then the program closes its two sides in order (C14 "every API call returns in bounded time")
+		h := connect.NewBidiStreamHandler("/verif.v1.Svc/M", func(_ context.Context, bs *connect.BidiStream[BV, BV]) error {
+			if _, err := bs.Receive(); err != nil {
+				return err
+			}
+			if err := bs.Send(&BV{Value: make([]byte, 64)}); err != nil {
+				return err
+			}
+			for {
+				if _, err := bs.Receive(); err != nil {
+					return nil // (drained: the client closed its side, or gave up)
+				}
+			}
+		})
+		srv := newLoopback(h, true)
+		client := connect.NewClient[BV, BV](srv.client, srv.srv.URL+"/verif.v1.Svc/M",
+			append(clientProtoOpts(s.Proto), connect.WithReadMaxBytes(16))...)
+		ctx, stop := context.WithCancel(context.Background())
+		bs := client.CallBidiStream(ctx)
+		type opres struct {
+			name string
+			err  error
+		}
+		ops := []func() opres{
+			func() opres { return opres{"send", bs.Send(&BV{Value: []byte{1}})} },
+			func() opres { _, err := bs.Receive(); return opres{"recv", err} },
+			func() opres { return opres{"closereq", bs.CloseRequest()} },
+			func() opres { return opres{"closeresp", bs.CloseResponse()} },
+		}
+		codes := []int{}
+		stuckAt := ""
+		for _, op := range ops {
+			ch := make(chan opres, 1)
+			go func() { ch <- op() }()
+			select {
+			case r := <-ch:
+				codes = append(codes, codeOf(r.err))
+			case <-time.After(5 * time.Second):
+				if stuckAt == "" {
+					stuckAt = []string{"send", "recv", "closereq", "closeresp"}[len(codes)]
+				}
+				stop() // let the rest of the program and the server finish
+				r := <-ch
+				codes = append(codes, codeOf(r.err))
+			}
+		}
+		stop()
+		srv.Close()
+		rec.Add(E("result", "codes", codes, "stuck_at", stuckAt))
 	case "errmeta_limit":
 		// a handler fails with metadata and a long message; the client's read limit is smaller than the error payload:
 		// whatever code the client reports, the handler's metadata is in the error (C11 "on failure at least in the
